@@ -1,4 +1,5 @@
-\* exhaustive (quick): 2 batchers, count 3, size 1 KB, memory 2 KB, timer on, callback failures, depth 5
+\* the same variant with read-only callbacks only: satisfies the contract (this is why plans whose callbacks do not edit
+\* the packs cannot tell the two apart; the mutating callbacks are what Packer_Remeasure.cfg needs)
 SPECIFICATION Spec
 CHECK_DEADLOCK FALSE
 VIEW view
@@ -12,8 +13,8 @@ CONSTANTS
   TimerOn = TRUE
   WithFail = TRUE
   MaxOps = 5
-  Muts = {"same", "grow", "shrink"}
+  Muts = {"same"}
   ResetOnError = TRUE
   AddBeforeChecks = TRUE
   RemoveWhole = TRUE
-  MeasureOnArrival = TRUE
+  MeasureOnArrival = FALSE
